@@ -735,6 +735,21 @@ Lemma w_rules_write_interferes :
   ex_ctx (i_run [1; 0; 0]%nat (i_init ex_rules (HApp 0) w_write_progs)) 0 = Some (mkICtx 0 false [0]).
 Proof. vm_compute. repeat split; reflexivity. Qed.
 
+(* 1b. a static buffer in a module (console.log(<int>) formatting into `static char msg[32]`): the buffer is shared state,
+       the formatting a write to it.  Scanner A (external 1111) formats its value, scanner B (2222) formats its own while A
+       is on its way into its callback, A's callback then reads: it does not see its own text (the step "buffer <= my
+       value" yields 1 alone and 0 in the interleaving), although every scanner-owned datum is intact *)
+Definition w_static_progs : list (list imop) :=
+  [ [MCreate; MDefine tt 1111; MRulesWrite (i_format 1111); MScan 0];
+    [MCreate; MDefine tt 2222; MRulesWrite (i_format 2222); MScan 0] ].
+Lemma w_static_buffer_interferes :
+  let g0 := i_init [(0, false)] (HApp 0) w_static_progs in
+  all_finished _ _ _ _ _ (i_run [0; 0; 0; 1; 1; 1; 0; 1]%nat g0) = true /\
+  ex_ctx (i_run [0; 0; 0; 1; 1; 1; 0; 1]%nat g0) 0 = Some (mkICtx 1111 false [0]) /\
+  ex_ctx (i_run (repeat 0%nat 4) g0) 0 = Some (mkICtx 1111 false [1]) /\
+  ex_ctx (i_run [0; 0; 0; 1; 1; 1; 0; 1]%nat g0) 1 = ex_ctx (i_run (repeat 1%nat 4) g0) 1.
+Proof. vm_compute. repeat split; reflexivity. Qed.
+
 (* 2. exception_handler_usecount++ outside the mutex: both threads see the counter at 0 inside their critical sections,
       so the second sigaction saves libyara's own handler as the "old" one (the original is lost); a lost update
       leaves the counter at 1 with two threads inside; when the first one leaves, the counter is 0 while the other is
